@@ -111,6 +111,7 @@ def run(F, chk):
     else:
         ra.violation("%s|reads status+retry" % co.path, co.where(), "Backend::can_open no longer tests status and retry_policy.can_try()")
     exhaustive_probe_rule(F, chk)
+    backoff_window_rule(F, chk)
     # ---------------- R-C12-b -----------------------------------------------
     rb = chk.rule("R-C12-b", "T5", "sticky lookup honours can_open; cascade ordered by emptiness", floor=3)
     fs = BL + "::find_sticky"
@@ -307,3 +308,55 @@ def exhaustive_probe_rule(F, chk):
                 r.ok(key, b.where(bi, si), "range end derives from the table size only")
             else:
                 r.violation(key, b.where(bi, si), "the keyed probe no longer walks the whole table (its end is %s): a key whose first slots belong to ineligible backends falls through to the stateful fallback and alternates between backends" % ("capped" if capped else "not the table size"))
+
+
+def backoff_window_rule(F, chk):
+    """R-C12-h: `not inside its failure back-off` is decided by can_try() as last_try.elapsed() >= wait.  That is only the
+    back-off the property means if the window starts at the failure: every path of RetryPolicy::fail that arms a window
+    (writes `wait`) also stamps its start (`last_try` <- Instant::now()), and can_try() consults both fields."""
+    r = chk.rule("R-C12-h", "T3", "a failure arms the back-off window and stamps its start", floor=2)
+    POL = "sozu_lib::retry::ExponentialBackoffPolicy"
+    fails = [p for p in F.paths() if p.startswith("<" + POL + " as ") and p.endswith("RetryPolicy>::fail")]
+    cans = [p for p in F.paths() if p.startswith("<" + POL + " as ") and p.endswith("RetryPolicy>::can_try")]
+    if not r.require(fails and cans, "ExponentialBackoffPolicy::fail / can_try not found"):
+        return
+    b = lib.flat(F, F.body(fails[0]))
+    r.fn(b.path)
+    def writes(field, need_now=False):
+        out = []
+        for bi, si, st in b.stmts():
+            lhs = st.get("lhs")
+            if isinstance(lhs, dict) and proj_fields(lhs) and proj_fields(lhs)[-1][2] == field and proj_fields(lhs)[-1][0] == POL:
+                if need_now and not any(c.endswith("Instant::now") for c in guards.slice_of_operand(b, st["rv"].get("a", {}))["callees"]):
+                    continue
+                out.append(bi)
+        for bi, t in b.calls():
+            d = t.get("dest")
+            if isinstance(d, dict) and proj_fields(d) and proj_fields(d)[-1][2] == field and proj_fields(d)[-1][0] == POL:
+                if need_now and not callee_of(t).endswith("Instant::now"):
+                    continue
+                out.append(bi)
+        return out
+    arm = writes("wait")
+    stamp = writes("last_try", need_now=True)
+    key = "%s|wait armed => last_try stamped" % b.path
+    if not r.require(arm, "fail(): no write of `wait` found"):
+        return
+    bad = []
+    for w in arm:
+        before = any(b.dominates(s_, w) for s_ in stamp)
+        after_leak = [x for x in b.returns() if x in b.reach_from(b.succ()[w], removed=stamp)] if w not in stamp else []
+        if not before and after_leak:
+            bad.append(w)
+    if bad:
+        r.violation(key, b.where(bad[0]), "fail() arms a back-off window (writes `wait`) on a path that does not set last_try to Instant::now(): the window is measured from the backend's creation / last success, so a backend that just failed still passes can_try() and keeps receiving connections")
+    else:
+        r.ok(key, b.where(arm[0]), "every path writing `wait` also stamps last_try = Instant::now()")
+    cb = F.body(cans[0])
+    rd, _ = cover.body_field_reads(lib.flat(F, cb), POL)
+    got = {f for _, f in rd}
+    key = "%s|reads last_try and wait" % cb.path
+    if {"last_try", "wait"} <= got:
+        r.ok(key, cb.where(), "can_try compares last_try.elapsed() with wait", nontrivial=False)
+    else:
+        r.violation(key, cb.where(), "can_try() no longer consults %s" % sorted({"last_try", "wait"} - got))
